@@ -718,6 +718,11 @@ func (x *World) Exec(i int, op Op) map[string]interface{} {
 			r.ret = got.(tokener).tok()
 			line["same"] = x.resVals[op.R] == got
 		})
+	case "AddListener":
+		args["s"] = op.L.S
+		args["c"] = nonNil(op.L.C)
+		args["hasc"] = op.L.HasC && len(op.L.C) > 0
+		res = guard(func(r *result) { x.addSub(*op.L) })
 	case "Dump":
 		line["dump"] = map[string]interface{}{"ok": false}
 		line["jsonOK"] = false
